@@ -34,7 +34,7 @@ FLAVOURS = {
                 link=[]),
     "scalar": dict(opt=["-O2", "-g0", "-ffp-contract=off"], defs=[], link=[]),
     "asan": dict(opt=["-O1", "-g", "-fno-omit-frame-pointer", "-fsanitize=address,undefined",
-                      "-fno-sanitize=vptr,nonnull-attribute", "-fno-sanitize-recover=all"],
+                      "-fno-sanitize=vptr,nonnull-attribute,pointer-overflow", "-fno-sanitize-recover=all"],
                  defs=[], link=["-fsanitize=address,undefined", "-shared-libasan"]),
     "tsan": dict(opt=["-O1", "-g", "-fno-omit-frame-pointer", "-fsanitize=thread"],
                  defs=[], link=["-fsanitize=thread"]),
@@ -42,7 +42,7 @@ FLAVOURS = {
                   defs=[], link=["-fsanitize=thread"]),
     "fuzz": dict(opt=["-O1", "-g", "-fno-omit-frame-pointer", "-fsanitize=address,undefined",
                       "-fsanitize=fuzzer-no-link",
-                      "-fno-sanitize=vptr,nonnull-attribute", "-fno-sanitize-recover=all"],
+                      "-fno-sanitize=vptr,nonnull-attribute,pointer-overflow", "-fno-sanitize-recover=all"],
                  defs=[], link=["-fsanitize=address,undefined"]),
 }
 
